@@ -41,14 +41,26 @@ def handle (c : Case) : Verdict :=
       match expected job n with
       | none => { out := [], oracle := some "unknown job", nontrivial := false }
       | some exp =>
+        -- known finding F18 (known_findings.json): an `iterate` whose body has an all-to-all connection
+        -- (shuffle, or the hash shipping of a join) on >= 2 replicas can deadlock across replicas once more
+        -- than a channel's worth (CHANNEL_CAPACITY = 16) of batches is in flight. A `blocked` run is
+        -- attributed to it ONLY for those jobs, on >= 2 replicas, with more than 16 batches per round;
+        -- every other `blocked` outcome is a plain failure.
+        let iterShuffleJob := job == "iterate" || job == "side_input" || job == "side_left_join"
+        let nEff : Int := if job == "iterate" then min n 2000 else min n 200
+        let batch : Int := match bm with
+          | "single" | "fixed1" => 1 | "fixed3" => 3 | "adaptive" => 64 | _ => 1024
+        let f18 := iterShuffleJob && cfg != "L1" && nEff > 16 * batch
         let oracle : Option String :=
-          if c.implOut.any (· == "blocked") then some s!"[C04] job {job} n={n} {bm} {cfg}: a host did not terminate (watchdog)"
+          if c.implOut.any (· == "blocked") then
+            some s!"[C04] {if f18 then "known:F18-iterate-shuffle-cross-replica-deadlock " else ""}job {job} n={n} {bm} {cfg}: a host did not terminate (watchdog)"
           else if c.implOut.any (fun l => l.startsWith "panic:") then some s!"[C04] job {job} n={n} {bm} {cfg}: execute_blocking panicked: {c.implOut}"
           else if c.implOut != exp then some s!"[C04] job {job} n={n} {bm} {cfg}: sinks differ from the complete result: impl={c.implOut} expected={exp}"
           else none
         let big := n ≥ 400
         { out := exp, oracle, nontrivial := true,
-          tags := [job, bm, cfg, if n == 0 then "empty" else if big then "over-capacity" else "small"] }
+          tags := [job, bm, cfg, if n == 0 then "empty" else if big then "over-capacity" else "small"]
+            ++ (if f18 then ["f18-region"] else []) }
     | none => { out := [], oracle := some "bad header", nontrivial := false }
   | _ => { out := [], oracle := some "bad header", nontrivial := false }
 
